@@ -96,6 +96,19 @@ Theorem C22_autoconnect_undo_refuted :
 Proof. exact autoconnect_undo_refuted. Qed.
 Print Assumptions C22_autoconnect_undo_refuted.
 
+(* removal of the plug snap (auto-disconnect -> the injected disconnect tasks, the snap leaves snapstate, remove-profiles,
+   discard-conns; failure before / after, the undo including undoDiscardConns, doSetupProfiles as the undo of remove-profiles
+   and undoDisconnect) is an operation of run_change too: C22_failed_change_restores and C22_settled_agree cover it
+   (a successful removal ends a safe history; a security setup failing inside an injected disconnect task is excluded: not
+   modelled). After a successful removal no conns entry and no repository connection is left - in this world every
+   connection names the removed snap - and no profile mentions a connection *)
+Theorem C22_remove_success : forall s, Agree s ->
+  let r := run_change s ORemove NoFail in
+  snd r = false /\ s_conns (fst (fst r)) = [] /\ s_repo (fst (fst r)) = [] /\ s_profc (fst (fst r)) = []
+  /\ forall x, mem x (s_profp (fst (fst r))) = false.
+Proof. exact remove_success. Qed.
+Print Assumptions C22_remove_success.
+
 (* ------------------------------------------------------------------ non-vacuity *)
 Definition ex_s := mkSt [(0, mkC true false false false true); (1, mkC true false true false false)] [0] [0] [0].
 Example C22_ex_agree : Agree ex_s.
@@ -110,7 +123,7 @@ Example C22_ex_history :
   let h := [(ODisconnect 0 false false false, NoFail); (OConnect 0 false false, FailAfter); (OConnect 1 false false, NoFail)] in
   safe_history ex_s h /\ lookup (s_conns (run_history ex_s h)) 0 = Some (mkC true false true false false)
   /\ s_repo (run_history ex_s h) = [1].
-Proof. vm_compute. repeat split. Qed.
+Proof. vm_compute. repeat split; intros; try discriminate; reflexivity. Qed.
 (* a history with auto-connect: 0 is active, 1 remembered undesired; auto-connect adds 2 and 3 only; a second auto-connect that
    fails after its main work changes nothing *)
 Example C22_ex_autoconnect :
@@ -118,4 +131,10 @@ Example C22_ex_autoconnect :
   safe_history ex_s h /\ s_repo (run_history ex_s h) = [0; 3]
   /\ lookup (s_conns (run_history ex_s h)) 2 = Some (mkC true false true false false)
   /\ lookup (s_conns (run_history ex_s h)) 1 = Some (mkC true false true false false).
-Proof. vm_compute. repeat split. Qed.
+Proof. vm_compute. repeat split; intros; try discriminate; reflexivity. Qed.
+(* a history ending with the removal of the plug snap, preceded by a removal attempt that failed at its very end *)
+Example C22_ex_remove :
+  let h := [(OAutoConnect, NoFail); (ORemove, FailAfter); (ORemove, NoFail)] in
+  safe_history ex_s h /\ st_eqb (run_history ex_s [(OAutoConnect, NoFail); (ORemove, FailAfter)]) (run_history ex_s [(OAutoConnect, NoFail)]) = true
+  /\ s_conns (run_history ex_s h) = [] /\ s_repo (run_history ex_s h) = [].
+Proof. vm_compute. repeat split; intros; try discriminate; reflexivity. Qed.
